@@ -26,6 +26,12 @@ def compose(per_statement, provider_md):
         for a, b in f.get("col_edges", []):
             edges.add((a, b))
         owned.update(f.get("owned_columns", []))
+        # RENAME: the columns known so far move with their table
+        for old, new in f.get("rename_in_order") or f.get("rename") or []:
+            def mv(c):
+                return new + c[len(old):] if c.startswith(old + ".") else c
+            edges = {(mv(a), mv(b)) for a, b in edges}
+            owned = {mv(c) for c in owned}
     # late resolution: an unresolved source is replaced by p.name for every candidate p that owns a column of that name anywhere in the
     # combined graph; else (truthy provider, schema-qualified candidate) by the candidates whose metadata lists it
     out = set()
